@@ -122,6 +122,11 @@ static void set_xlat(kdump_ctx_t *ctx, unsigned long long rootpgt)
 		LIB(st = kdump_set_number_attr(ctx, KDUMP_ATTR_XLAT_FORCE ".virt_bits", 48));
 	if (st != KDUMP_OK) { fprintf(stderr, "setup: set_xlat: %s\n", kdump_get_err(ctx)); _exit(4); }
 }
+static void set_rootpgt(kdump_ctx_t *ctx, unsigned long long rootpgt)
+{
+	LIB(kdump_set_number_attr(ctx, KDUMP_ATTR_XLAT_FORCE ".rootpgt.as", ADDRXLAT_MACHPHYSADDR));
+	LIB(kdump_set_address_attr(ctx, KDUMP_ATTR_XLAT_FORCE ".rootpgt.addr", rootpgt));
+}
 /* read [addr, addr+len) and compare with a reference context opened afresh */
 static void compare_read(kdump_ctx_t *ctx, const char *path, kdump_addrspace_t as,
 			 unsigned long long addr, size_t len, unsigned long long rootpgt, const char *who)
@@ -167,6 +172,8 @@ static void shape_subtree(const struct attr_data *a)
 	default: out("O%d", attr_isset(a)); break;
 	}
 }
+
+static unsigned long sys_digest(addrxlat_sys_t *sys);
 
 /* ======================= scenarios ======================= */
 static void sc_new(char **av, int ac)
@@ -449,6 +456,48 @@ static void sc_vmcoreinfo(char **av, int ac)
 	close(fd);
 }
 
+/* kdump_get_addrxlat: initialises the translation system of the dump's architecture / OS */
+static void sc_getxlat(char **av, int ac)
+{
+	const char *path = av[0];
+	int fd, fd2;
+	kdump_ctx_t *ctx = open_ctx(path, &fd), *ref;
+	addrxlat_ctx_t *ax = NULL; addrxlat_sys_t *sys = NULL;
+	kdump_status st, st2, st3;
+	const char *ostype = ac > 1 && strcmp(av[1], "-") ? av[1] : NULL;
+	unsigned long long rootpgt = ac > 2 ? argull(av, 2) : 0;
+	if (rootpgt) set_rootpgt(ctx, rootpgt);
+	name_ctx_locks(ctx);
+	win_open();
+	/* setting the OS type re-reads the utsname through the translation: the set-up runs here */
+	if (ostype) CALL("set addrxlat.ostype", kdump_set_string_attr(ctx, "addrxlat.ostype", ostype));
+	st = CALL("kdump_get_addrxlat", kdump_get_addrxlat(ctx, &ax, &sys));
+	note_held();
+	win_close();
+	if (st == KDUMP_OK) { LIB(addrxlat_sys_decref(sys)); LIB(addrxlat_ctx_decref(ax)); }
+	if (!held_at_return) {
+		unsigned long d1 = 0, d2 = 0;
+		ref = open_ctx(path, &fd2);
+		if (rootpgt) set_rootpgt(ref, rootpgt);
+		if (ostype) LIB(kdump_set_string_attr(ref, "addrxlat.ostype", ostype));
+		LIB(st3 = kdump_get_addrxlat(ref, &ax, &sys));
+		if (st3 == KDUMP_OK) { d2 = sys_digest(sys); LIB(addrxlat_sys_decref(sys)); LIB(addrxlat_ctx_decref(ax)); }
+		if (ostype) LIB(kdump_set_string_attr(ctx, "addrxlat.ostype", ostype));
+		LIB(st2 = kdump_get_addrxlat(ctx, &ax, &sys));
+		if (st2 == KDUMP_OK) { d1 = sys_digest(sys); LIB(addrxlat_sys_decref(sys)); LIB(addrxlat_ctx_decref(ax)); }
+		/* only where a fresh context can set the translation up at all: a context whose
+		 * set-up fails for another reason is (by design) not set up again on the next call */
+		if (oom_failed_calls && st3 == KDUMP_OK) {
+			if (st2 != st3) surv_fail("kdump_get_addrxlat repeated gives status %d, a fresh context %d (%s)", st2, st3, kdump_get_err(ctx));
+			else if (d1 != d2) surv_fail("kdump_get_addrxlat repeated builds a different translation system");
+		}
+		out(" shape=st:%d;ref:%d", (int)st, (int)st3);
+		LIB(kdump_free(ref)); close(fd2);
+		LIB(kdump_free(ctx));
+	}
+	close(fd);
+}
+
 static void sc_free(char **av, int ac)
 {
 	const char *path = av[0];
@@ -671,14 +720,174 @@ static void sc_wb_map_seq(char **av, int ac)
 	LIB(addrxlat_map_decref(map));
 }
 
+/* addrxlat_sys_os_init, pure libaddrxlat (no callbacks: every read / symbol lookup fails
+ * with NODATA, which the OS set-up code must cope with).  Options: comma separated
+ * arch=,ostype=,osver=,page_shift=,virt_bits=,phys_bits=,phys_base=,xen_xlat=,rootpgt=<as>:<addr>.
+ * Reports the status and a digest of the resulting system (maps' range lists, method kinds);
+ * after a failed call the same call is repeated without failure and must give what a fresh
+ * system gives. */
+static unsigned long sys_digest(addrxlat_sys_t *sys)
+{
+	unsigned long h = 1469598103UL; unsigned i; size_t j;
+	for (i = 0; i < ADDRXLAT_SYS_MAP_NUM; ++i) {
+		const addrxlat_map_t *m = addrxlat_sys_get_map(sys, i);
+		size_t n = m ? addrxlat_map_len(m) : 0;
+		const addrxlat_range_t *r = m ? addrxlat_map_ranges(m) : NULL;
+		h = h * 1099511 + n + (m ? 7 : 3);
+		for (j = 0; j < n; ++j) h = (h * 1099511 + r[j].endoff) * 31 + (unsigned long)r[j].meth;
+	}
+	for (i = 0; i < ADDRXLAT_SYS_METH_NUM; ++i) {
+		const addrxlat_meth_t *m = addrxlat_sys_get_meth(sys, i);
+		h = h * 1099511 + (unsigned long)m->kind * 131 + m->target_as;
+	}
+	return h;
+}
+static int parse_sys_opts(char *spec, addrxlat_opt_t *opts, addrxlat_fulladdr_t *root)
+{
+	char *save = NULL, *t; int n = 0;
+	for (t = strtok_r(spec, ",", &save); t && n < 12; t = strtok_r(NULL, ",", &save)) {
+		char *v = strchr(t, '=');
+		if (!v) continue;
+		*v++ = 0;
+		if (!strcmp(t, "arch")) addrxlat_opt_arch(&opts[n++], v);
+		else if (!strcmp(t, "ostype")) addrxlat_opt_os_type(&opts[n++], v);
+		else if (!strcmp(t, "osver")) addrxlat_opt_version_code(&opts[n++], strtoul(v, NULL, 0));
+		else if (!strcmp(t, "page_shift")) addrxlat_opt_page_shift(&opts[n++], strtoul(v, NULL, 0));
+		else if (!strcmp(t, "virt_bits")) addrxlat_opt_virt_bits(&opts[n++], strtoul(v, NULL, 0));
+		else if (!strcmp(t, "phys_bits")) addrxlat_opt_phys_bits(&opts[n++], strtoul(v, NULL, 0));
+		else if (!strcmp(t, "phys_base")) addrxlat_opt_phys_base(&opts[n++], strtoull(v, NULL, 0));
+		else if (!strcmp(t, "xen_xlat")) addrxlat_opt_xen_xlat(&opts[n++], strtoul(v, NULL, 0));
+		else if (!strcmp(t, "xen_p2m_mfn")) addrxlat_opt_xen_p2m_mfn(&opts[n++], strtoul(v, NULL, 0));
+		else if (!strcmp(t, "rootpgt")) {
+			root->as = (addrxlat_addrspace_t)strtoul(v, &v, 0);
+			root->addr = strtoull(v + 1, NULL, 0);
+			addrxlat_opt_rootpgt(&opts[n++], root);
+		}
+	}
+	return n;
+}
+/* memory image and symbol data of a scenario file (lib/kdv/xlatcfg.py) */
+struct xmem { unsigned long long addr; size_t len; unsigned char *buf; };
+struct xsym { char kind; char a1[64], a2[64]; unsigned long long val; };
+static struct xmem xmems[256]; static int nxmem;
+static struct xsym xsyms[256]; static int nxsym;
+static unsigned long xmem_as = ADDRXLAT_MACHPHYSADDR;
+static addrxlat_ctx_t *xcb_ctx;
+
+static unsigned long x_read_caps(const addrxlat_cb_t *cb) { return ADDRXLAT_CAPS(xmem_as); }
+static addrxlat_status x_get_page(const addrxlat_cb_t *cb, addrxlat_buffer_t *buf)
+{
+	int i;
+	if (buf->addr.as != xmem_as)
+		return addrxlat_ctx_err(xcb_ctx, ADDRXLAT_ERR_INVALID, "Unexpected address space");
+	for (i = 0; i < nxmem; ++i)
+		if (xmems[i].addr <= buf->addr.addr && xmems[i].addr + xmems[i].len >= buf->addr.addr + 4) {
+			buf->addr.addr = xmems[i].addr; buf->ptr = xmems[i].buf; buf->size = xmems[i].len;
+			buf->byte_order = ADDRXLAT_HOST_ENDIAN;
+			return ADDRXLAT_OK;
+		}
+	return addrxlat_ctx_err(xcb_ctx, ADDRXLAT_ERR_NODATA, "No data");
+}
+static addrxlat_status x_sym(char kind, const char *a1, const char *a2, addrxlat_addr_t *val)
+{
+	int i;
+	for (i = 0; i < nxsym; ++i)
+		if (xsyms[i].kind == kind && !strcmp(xsyms[i].a1, a1) && (!a2 || !strcmp(xsyms[i].a2, a2))) {
+			*val = xsyms[i].val; return ADDRXLAT_OK;
+		}
+	return ADDRXLAT_ERR_NODATA;
+}
+static addrxlat_status x_reg(const addrxlat_cb_t *cb, const char *n, addrxlat_addr_t *v) { return x_sym('R', n, NULL, v); }
+static addrxlat_status x_val(const addrxlat_cb_t *cb, const char *n, addrxlat_addr_t *v) { return x_sym('V', n, NULL, v); }
+static addrxlat_status x_size(const addrxlat_cb_t *cb, const char *n, addrxlat_addr_t *v) { return x_sym('S', n, NULL, v); }
+static addrxlat_status x_off(const addrxlat_cb_t *cb, const char *o, const char *e, addrxlat_addr_t *v) { return x_sym('O', o, e, v); }
+static addrxlat_status x_num(const addrxlat_cb_t *cb, const char *n, addrxlat_addr_t *v) { return x_sym('N', n, NULL, v); }
+
+/* load "O/A/M/Y" lines; returns the option spec */
+static char *load_xcfg(const char *path)
+{
+	FILE *f = fopen(path, "r");
+	char *line = NULL, *spec = NULL; size_t cap = 0; ssize_t n;
+	if (!f) { perror(path); _exit(4); }
+	while ((n = getline(&line, &cap, f)) > 0) {
+		while (n && (line[n - 1] == '\n' || line[n - 1] == '\r')) line[--n] = 0;
+		if (line[0] == 'O') spec = strdup(line + 2);
+		else if (line[0] == 'A') xmem_as = strtoul(line + 2, NULL, 0);
+		else if (line[0] == 'M' && nxmem < 256) {
+			char *p; size_t i, l;
+			xmems[nxmem].addr = strtoull(line + 2, &p, 16);
+			while (*p == ' ') ++p;
+			l = strlen(p) / 2;
+			xmems[nxmem].buf = malloc(l ? l : 1); xmems[nxmem].len = l;
+			for (i = 0; i < l; ++i) {
+				int hi = p[2 * i], lo = p[2 * i + 1];
+				hi = hi <= '9' ? hi - '0' : (hi | 32) - 'a' + 10;
+				lo = lo <= '9' ? lo - '0' : (lo | 32) - 'a' + 10;
+				xmems[nxmem].buf[i] = (unsigned char)(hi * 16 + lo);
+			}
+			++nxmem;
+		} else if (line[0] == 'Y' && nxsym < 256) {
+			char kind[16];
+			if (sscanf(line + 2, "%15s %63s %63s %llx", kind, xsyms[nxsym].a1, xsyms[nxsym].a2, &xsyms[nxsym].val) == 4) {
+				xsyms[nxsym].kind = kind[0] == 'S' ? 'S' : kind[0];   /* REG VALUE SIZEOF OFFSETOF NUMBER */
+				++nxsym;
+			}
+		}
+	}
+	free(line); fclose(f);
+	return spec ? spec : strdup("");
+}
+
+static void sc_wb_sys_os(char **av, int ac)
+{
+	addrxlat_ctx_t *ax; addrxlat_sys_t *sys, *ref;
+	addrxlat_opt_t opts[12]; addrxlat_fulladdr_t root;
+	char *spec;
+	int n;
+	addrxlat_status st, st2, st3;
+	unsigned long fb;
+	/* either an option list or @<scenario file> with memory image and symbols */
+	spec = av[0][0] == '@' ? load_xcfg(av[0] + 1) : strdup(av[0]);
+	n = parse_sys_opts(spec, opts, &root);
+	LIB(ax = addrxlat_ctx_new()); LIB(sys = addrxlat_sys_new()); LIB(ref = addrxlat_sys_new());
+	if (!ax || !sys || !ref) _exit(4);
+	if (av[0][0] == '@') {
+		addrxlat_cb_t *cb;
+		LIB(cb = addrxlat_ctx_add_cb(ax));
+		if (!cb) _exit(4);
+		xcb_ctx = ax;
+		cb->get_page = x_get_page; cb->read_caps = x_read_caps; cb->reg_value = x_reg;
+		cb->sym_value = x_val; cb->sym_sizeof = x_size; cb->sym_offsetof = x_off; cb->num_value = x_num;
+	}
+	win_open();
+	fb = oom_failed_calls;
+	st = addrxlat_sys_os_init(sys, ax, n, opts);
+	if (oom_failed_calls != fb) {
+		if (st == ADDRXLAT_ERR_NOMEM) any_call_failed_ok = 1;
+		else if (!missed[0]) snprintf(missed, sizeof missed, "addrxlat_sys_os_init=%d", (int)st);
+	}
+	note_held();
+	win_close();
+	LIB(st3 = addrxlat_sys_os_init(ref, ax, n, opts));
+	out(" shape=st:%d;ref:%d;digest:%lx", (int)st, (int)st3, st == ADDRXLAT_OK ? sys_digest(sys) : 0UL);
+	if (st != ADDRXLAT_OK && oom_failed_calls != fb) {
+		LIB(st2 = addrxlat_sys_os_init(sys, ax, n, opts));
+		if (st2 != st3) surv_fail("os_init repeated after the failure gives status %d, a fresh system %d", st2, st3);
+		else if (st2 == ADDRXLAT_OK && sys_digest(sys) != sys_digest(ref))
+			surv_fail("os_init repeated after the failure builds a different system");
+	} else if (st == ADDRXLAT_OK && st3 == ADDRXLAT_OK && sys_digest(sys) != sys_digest(ref))
+		surv_fail("two identical os_init calls build different systems");
+	LIB(addrxlat_sys_decref(sys)); LIB(addrxlat_sys_decref(ref)); LIB(addrxlat_ctx_decref(ax));
+}
+
 static const struct { const char *name; void (*fn)(char **, int); int minargs; } scenarios[] = {
 	{ "new", sc_new, 0 }, { "clone", sc_clone, 2 }, { "open", sc_open, 1 }, { "reopen", sc_reopen, 1 },
 	{ "read", sc_read, 4 }, { "readstr", sc_readstr, 3 }, { "attrs", sc_attrs, 1 },
-	{ "pagemap", sc_pagemap, 1 }, { "vmcoreinfo", sc_vmcoreinfo, 1 }, { "free", sc_free, 1 },
+	{ "pagemap", sc_pagemap, 1 }, { "vmcoreinfo", sc_vmcoreinfo, 1 }, { "free", sc_free, 1 }, { "getxlat", sc_getxlat, 1 },
 	{ "wb_xlat", sc_wb_xlat, 1 }, { "wb_fcache_new", sc_wb_fcache_new, 3 },
 	{ "wb_cache_alloc", sc_wb_cache_alloc, 2 }, { "wb_pfn_regions", sc_wb_pfn_regions, 1 },
 	{ "wb_dict", sc_wb_dict, 1 }, { "wb_create_path", sc_wb_create_path, 1 },
-	{ "wb_clone_path", sc_wb_clone_path, 1 }, { "wb_map_seq", sc_wb_map_seq, 1 },
+	{ "wb_clone_path", sc_wb_clone_path, 1 }, { "wb_map_seq", sc_wb_map_seq, 1 }, { "wb_sys_os", sc_wb_sys_os, 1 },
 };
 
 static void emit_events(void)
